@@ -235,6 +235,26 @@ func countFloatSignificantDigits(str string) (count uint) {
 	return count
 }
 
+const maxDFloatCoefficientDigits = 18
+
+func countDecimalCoefficientDigits(str string) (count int) {
+	leading := true
+	for _, ch := range str {
+		if ch == 'e' || ch == 'E' {
+			break
+		}
+		if ch < '0' || ch > '9' {
+			continue
+		}
+		if leading && ch == '0' {
+			continue
+		}
+		leading = false
+		count++
+	}
+	return count
+}
+
 func (_this *cteListener) ExitValueFloat(ctx *parser.ValueFloatContext) {
 	defer func() {
 		_this.wrapPanic(recover(), ctx.BaseParserRuleContext)
@@ -268,9 +288,13 @@ func (_this *cteListener) ExitValueFloat(ctx *parser.ValueFloatContext) {
 		}
 	}
 
-	if value, err := compact_float.DFloatFromString(str); err == nil {
-		_this.eventReceiver.OnDecimalFloat(value)
-		return
+	// A DFloat coefficient is an int64: a literal with more significant digits
+	// would be silently mangled, so it goes to the arbitrary precision path.
+	if countDecimalCoefficientDigits(strNoSign) <= maxDFloatCoefficientDigits {
+		if value, err := compact_float.DFloatFromString(str); err == nil {
+			_this.eventReceiver.OnDecimalFloat(value)
+			return
+		}
 	}
 
 	decimal, cond, err := apd.NewFromString(strNoSign)
